@@ -43,7 +43,20 @@ def check_frame(case):
     w = None if case["w"] is None else np.array(case["w"], dtype=dt)
     ncol = 0 if X is None else X.shape[1]
     nrow = n - delay2 - past + 2
-    assert nrow >= 1
+    assert nrow >= 0
+    if nrow == 0:
+        # one observation short of a first complete row: the plain table is empty, the same_rows table is the series' length of NaN rows
+        # (nothing of the series may appear in it: every value would be a lag AND a target at once)
+        nx, ny, nw = _utils.build_ts_X_y(_model(past, delay2), X, y, w, same_rows=same_rows)
+        nx, ny = np.asarray(nx), np.asarray(ny)
+        f0 = dict(past=past, delay2=delay2, same_rows=same_rows, ncol=ncol, weights=w is not None, nrow=0)
+        if same_rows:
+            require(nx.shape == (n, ncol + past) and ny.shape == (n, delay2 - 1), "shape:no-complete-row", "%r %r" % (nx.shape, ny.shape), f0)
+            require(bool(np.isnan(nx).all()) and bool(np.isnan(ny).all()), "same_rows:values-without-a-complete-row",
+                    "series of %d values, past=%d delay2=%d: X=%r y=%r" % (n, past, delay2, nx.tolist(), ny.tolist()), f0)
+        else:
+            require(nx.shape[0] == 0 and ny.shape[0] == 0, "plain:rows-without-a-complete-row", "%r %r" % (nx.shape, ny.shape), f0)
+        return Outcome(["no-complete-row", "same_rows" if same_rows else "plain"], True, key=dict(past=past, delay2=delay2, same_rows=same_rows, ncol=ncol, w=w is not None))
     yidx = {float(v): i for i, v in enumerate(y)}
     assert len(yidx) == n, "series must be injective"
     y0, X0, w0 = y.copy(), None if X is None else X.copy(), None if w is None else w.copy()
@@ -143,7 +156,7 @@ def _enum_cases(tier):
     for n in range(1, nmax + 1):
         for past in range(1, 7):
             for delay2 in range(2, 7):
-                if n - delay2 - past + 2 < 1:
+                if n - delay2 - past + 2 < 0:
                     continue
                 for ncol in (0, 1, 2):
                     for hasw in (False, True):
